@@ -1,5 +1,7 @@
 // C01 — parallel loops. Instrumented half.
 #include <deque>
+#include <functional>
+#include <memory>
 #include <vector>
 
 #include "../rt/sim_api.h"
@@ -51,12 +53,49 @@ inline void visit(CallCtx &cx, long long idx)
   c01_body_exit(cx.h);
 }
 
+// a function object that owns heap state; the loop must run every invocation on an object that still has it
+template <typename I>
+struct OwningBody
+{
+  CallCtx *cx;
+  std::vector<int> state;
+  void operator()(I i) const
+  {
+    if (state.size() != 3 || state[2] != 4242)
+      c01_state_lost(cx->h, (long long)i, 0);
+    visit(*cx, (long long)i);
+  }
+};
+
 template <typename I>
 void do_for(CallCtx &cx)
 {
   I n = (I)cx.count;
   SimTag tag(SIM_TAG_SUT);
-  parallel_for(n, [&cx](I i) { visit(cx, (long long)i); });
+  const int kind = cx.inner ? 0 : cx.c->functor;
+  if (kind == 1) {
+    // passed as a temporary: an implementation may move it, but only to where the invocations then run
+    auto sp = std::make_shared<int>(4242);
+    parallel_for(n, [&cx, sp](I i) {
+      if (!sp || *sp != 4242)
+        c01_state_lost(cx.h, (long long)i, 0);
+      visit(cx, (long long)i);
+    });
+  } else if (kind == 2) {
+    auto sp = std::make_shared<int>(4242);
+    parallel_for(n, std::function<void(I)>([&cx, sp](I i) {
+      if (!sp || *sp != 4242)
+        c01_state_lost(cx.h, (long long)i, 0);
+      visit(cx, (long long)i);
+    }));
+  } else if (kind == 3) {
+    OwningBody<I> body{&cx, {1, 2, 4242}};
+    parallel_for(n, body);
+    if (body.state.size() != 3)  // a named object is the caller's: the loop may copy it, not empty it
+      c01_state_lost(cx.h, -1, 1);
+  } else {
+    parallel_for(n, [&cx](I i) { visit(cx, (long long)i); });
+  }
 }
 
 template <typename I, int B>
